@@ -286,10 +286,13 @@ def c15_workloads(fmt, ch, rate):
         # read, explicit seek of the write pointer, write, explicit seek of the read pointer, read: a seek that fails once must not displace what follows
         wl["rw2"] = (prep, ["open 0 vio rw 1 %d %d %d" % (fmt, ch, rate), "seek 0 4 16", "read 0 %s f 6" % T, "seek 0 10 32", "write 0 %s f 4 gen noise 6 0" % T,
                             "seek 0 20 16", "read 0 %s f 3" % T, "seek 0 %d 32" % N, "write 0 %s f 5 gen noise 7 0" % T, "seek 0 8 0", "read 0 %s f 4" % T, "close 0"])
+    if scen.is_granular(fmt) and ch == 1:
+        # calls that need several staging chunks through the floating point entry points: a transfer cut short in a later chunk
+        wl["wbig"] = (["file 1 new"], ["open 0 vio w 1 %d %d %d" % (fmt, ch, rate), "write 0 d f 9000 gen zeros 1 0", "write 0 f f 9000 gen zeros 1 0", "write 0 s f 9000 gen zeros 1 0", "write 0 i f 9000 gen zeros 1 0", "close 0"])
     # what the file holds afterwards is read back (judged strictly when no fault fired or the fault was absorbed, sanity only otherwise)
     for name in list(wl):
         if name != "r":
-            wl[name] = (wl[name][0], wl[name][1] + ["open 1 vio r 1 %d %d %d" % (ofmt, ch, rate), "read 1 %s f %d" % (T, N + 12), "close 1"])
+            wl[name] = (wl[name][0], wl[name][1] + ["open 1 vio r 1 %d %d %d" % (ofmt, ch, rate), "read 1 %s f %d" % (T, (N if name != "wbig" else 40) + 12), "close 1"])
     return wl
 
 
@@ -331,6 +334,34 @@ def c15_scenarios(S, fmt, ch, rate, name, K, step=1, kinds=KINDS, stickies=(0, 1
                 S.add(*prep)
                 S.add("fault %d %s %d" % (i, kind, st))
                 S.add(*ops)
+
+
+def c19_settings(S, fmtB, fmtA, rate, rng):
+    """per-handle settings must stay per handle: handle A issues every setter command; a handle B opened before, during and after
+    that writes the same samples (incl. -0.0, a denormal, infinities and NaN for float encodings) and must produce the same bytes;
+    a reader of B's file must read the same values before and after"""
+    T = "f" if scen.sub(fmtB) == 6 else "d" if scen.sub(fmtB) == 7 else "s"
+    if T == "f":
+        toks = ["-2147483648", "1", "8388607", "2139095040", "-8388608", "2143289344", "1065353216", "-1082130432", "1036831949", "0", "872415232", "-1275068416"]
+    elif T == "d":
+        toks = ["-2147483648:0", "0:1", "1048575:4294967295", "2146435072:0", "-1048576:0", "2146959360:0", "1072693248:0", "-1074790400:0", "1069128089:2576980378", "0:0"]
+    else:
+        toks = [str(v) for v in (0, 1, -1, 32767, -32768, 12345, -12345, 256, -256, 77)]
+    wr = "write %%d %s f %d %s" % (T, len(toks), " ".join(toks))
+    S.scn(fmt="0x%x" % fmtB, ch=1, T=T, kind="c19set", fmtA="0x%x" % fmtA)
+    S.add("file 1 new", "open 0 vio w 1 %d 1 %d" % (fmtB, rate), wr % 0, "close 0")
+    S.add("open 3 vio r 1 %d 1 %d" % (fmtB if scen.major(fmtB) == scen.RAW else 0, rate), "read 3 %s f %d" % (T, len(toks)))
+    S.add("file 5 new", "open 1 vio w 5 %d 1 %d" % (fmtA, rate))
+    for nm, v in (("TEST_IEEE_FLOAT_REPLACE", 1), ("SET_NORM_FLOAT", 0), ("SET_NORM_DOUBLE", 0), ("SET_CLIPPING", 1), ("SET_SCALE_INT_FLOAT_WRITE", 1), ("SET_SCALE_FLOAT_INT_READ", 1),
+                  ("SET_ADD_PEAK_CHUNK", 0), ("SET_UPDATE_HEADER_AUTO", 1), ("SET_DITHER_ON_WRITE", 1), ("SET_DITHER_ON_READ", 1), ("RAW_DATA_NEEDS_ENDSWAP", 0), ("SET_ADD_HEADER_PAD_CHUNK", 1)):
+        S.add("cmd 1 %s %d" % (nm, v))
+    S.add("write 1 s f 4 gen noise 3 0")
+    S.add("file 2 new", "open 0 vio w 2 %d 1 %d" % (fmtB, rate), wr % 0, "close 0")          # B while A is open
+    S.add("seek 3 0 0", "read 3 %s f %d" % (T, len(toks)))
+    S.add("close 1")
+    S.add("file 4 new", "open 0 vio w 4 %d 1 %d" % (fmtB, rate), wr % 0, "close 0")          # B after A
+    S.add("seek 3 0 0", "read 3 %s f %d" % (T, len(toks)), "close 3")
+    S.add("open 3 vio r 4 %d 1 %d" % (fmtB if scen.major(fmtB) == scen.RAW else 0, rate), "read 3 %s f %d" % (T, len(toks)), "close 3")
 
 
 def c19_foreign(S, seeds, rate, rng, nmut=12, perfield=True):
